@@ -5,7 +5,7 @@
    v<m> have m >= counter, so they are not below the counter and can be valued freely. *)
 Require Import List NArith ZArith String Bool Lia.
 Require Import KV.Backward.Model KV.Backward.Spec KV.Backward.NameProofs KV.Backward.SubstProofs
-        KV.Backward.RenameProofs KV.Backward.SearchProofs.
+        KV.Backward.RenameProofs KV.Backward.SearchProofs KV.Backward.GroundProofs KV.Backward.SoundProofs.
 Import ListNotations.
 
 Definition agree_below (n : N) (nu nu' : valuation) : Prop := forall x, below n x -> nu' x = nu x.
@@ -30,10 +30,37 @@ Proof.
   intros x t Hin. destruct (Hb x t Hin) as [B1 B2]. split; [now apply Ha|eapply eval_agree; eauto].
 Qed.
 
+Lemma filter_holds_agree : forall num nu nu' f,
+    (forall x, In x (filter_vars f) -> nu' x = nu x) -> filter_holds num nu' f = filter_holds num nu f.
+Proof.
+  intros num nu nu' [x op [z|y]] H; unfold filter_holds; cbn in *.
+  - now rewrite (H x (or_introl eq_refl)).
+  - now rewrite (H x (or_introl eq_refl)), (H y (or_intror (or_introl eq_refl))).
+Qed.
+
+Lemma forallb_filter_holds_agree : forall num nu nu' fs,
+    (forall f x, In f fs -> In x (filter_vars f) -> nu' x = nu x) ->
+    forallb (filter_holds num nu') fs = forallb (filter_holds num nu) fs.
+Proof.
+  intros num nu nu' fs H. induction fs as [|f fs IH]; [reflexivity|]. cbn.
+  rewrite (filter_holds_agree num nu nu' f) by (intros x Hx; apply (H f x); [now left|assumption]).
+  f_equal. apply IH. intros g x Hg Hx. apply (H g x); [now right|assumption].
+Qed.
+
+Lemma forallb_push : forall num n0 n vm mu nu fs,
+    vm_ok n0 n vm -> (forall f x, In f fs -> In x (filter_vars f) -> lookup x vm <> None) ->
+    forallb (filter_holds num (push vm mu nu)) (map (rename_filter vm) fs) = forallb (filter_holds num mu) fs.
+Proof.
+  intros num n0 n vm mu nu fs Hok Hc. induction fs as [|f fs IH]; [reflexivity|]. cbn.
+  rewrite (filter_holds_push num n0 n vm mu nu f Hok) by (intros x Hx; apply (Hc f x); [now left|assumption]).
+  f_equal. apply IH. intros g x Hg Hx. apply (Hc g x); [now right|assumption].
+Qed.
+
 Section Complete.
   Variable num : N -> Z.
   Variable F : list fact.
   Variable R : list rule.
+  Hypothesis Hmode : known_C18 R = false \/ safe_rules R = true.
   Let D := derivable num F R.
 
   Definition rec_complete (h : nat) (rec : atom -> subst -> N -> list subst * N) : Prop :=
@@ -44,6 +71,7 @@ Section Complete.
     Variable rec : atom -> subst -> N -> list subst * N.
     Variable h : nat.
     Hypothesis Hinv : rec_inv rec.
+    Hypothesis Hdet : safe_rules R = true -> rec_det rec.
     Hypothesis Hrec : rec_complete h rec.
 
     Lemma solve_each_complete : forall p bs n b nu,
@@ -82,31 +110,47 @@ Section Complete.
         eapply agree_below_trans; [exact Ha1|]. eapply agree_below_mono; eauto.
     Qed.
 
-    Lemma solve_concls_complete : forall sq th ps cs n c nu,
+    (* what is known about the filters of the renamed rule: none, or all their variables are determined once the
+       premises are solved *)
+    Definition filters_ready (ps : list atom) (fs : list fcond) : Prop :=
+      fs = [] \/ (safe_rules R = true /\
+                  forall th', Forall (det th') ps -> forall f x, In f fs -> In x (filter_vars f) -> det_term th' (Var x)).
+
+    Lemma solve_concls_complete : forall sq th ps fs cs n c nu,
         good n th -> atom_below n sq -> Forall (atom_below n) ps -> Forall (atom_below n) cs ->
+        (forall f x, In f fs -> In x (filter_vars f) -> below n x) -> filters_ready ps fs ->
         In c cs -> sat nu th -> eval_atom nu c = eval_atom nu sq ->
         (forall p, In p ps -> D h (eval_atom nu p)) ->
-        exists th' nu', In th' (fst (solve_concls rec sq th ps cs n)) /\ sat nu' th' /\ agree_below n nu nu'.
+        forallb (filter_holds num nu) fs = true ->
+        exists th' nu', In th' (fst (solve_concls num rec sq th ps fs cs n)) /\ sat nu' th' /\ agree_below n nu nu'.
     Proof.
-      intros sq th ps cs. induction cs as [|c0 cs IH]; intros n c nu Hth Hsq Hps Hcs Hin Hs He Hd; [contradiction|].
+      intros sq th ps fs cs. induction cs as [|c0 cs IH]; intros n c nu Hth Hsq Hps Hcs Hfb Hfr Hin Hs He Hd Hf; [contradiction|].
       inversion Hcs as [|? ? Hc1 Hc2]; subst. cbn.
       destruct Hin as [<-|Hin].
       - destruct (unify_patterns_complete nu c0 sq th Hs He) as (rb & Eu & Hsrb). rewrite Eu.
         destruct (solve_prems rec ps [rb] n) as [r n1] eqn:E1.
-        destruct (solve_concls rec sq th ps cs n1) as [rs' n2] eqn:E2. cbn.
+        destruct (solve_concls num rec sq th ps fs cs n1) as [rs' n2] eqn:E2. cbn.
         assert (Grb : good n rb).
         { destruct Hth as [W B]. split; [exact (unify_patterns_wf c0 sq th rb W Eu)|exact (unify_patterns_below n c0 sq th rb B Hc1 Hsq Eu)]. }
+        destruct (solve_prems_inv rec Hinv _ _ _ _ _ (Forall_cons _ Grb (Forall_nil _)) Hps E1) as [L1 G1].
         destruct (solve_prems_complete ps [rb] n rb nu (Forall_cons _ Grb (Forall_nil _)) Hps (or_introl eq_refl) Hsrb Hd)
-          as (th' & nu' & Hth' & Hs' & Ha). rewrite E1 in Hth'.
-        exists th', nu'. split; [apply in_or_app; now left|auto].
+          as (th' & nu' & Hth' & Hs' & Ha). rewrite E1 in Hth'. cbn in Hth'.
+        exists th', nu'. split; [|auto]. apply in_or_app. left. apply filter_In. split; [assumption|].
+        destruct Hfr as [->|[Hsafe Hfd]]; [reflexivity|].
+        rewrite Forall_forall in G1.
+        rewrite (filters_hold_spec num th' nu' fs); [| apply (G1 th' Hth') | | assumption].
+        + rewrite <- Hf. apply forallb_filter_holds_agree. intros f x Hf' Hx. apply Ha. now apply (Hfb f x).
+        + apply Hfd. destruct (solve_prems_det rec (Hdet Hsafe) ps [rb] n th') as (b' & _ & _ & Hdd); [now rewrite E1|].
+          exact Hdd.
       - destruct (unify_patterns c0 sq th) as [rb|] eqn:Eu.
         + destruct (solve_prems rec ps [rb] n) as [r n1] eqn:E1.
-          destruct (solve_concls rec sq th ps cs n1) as [rs' n2] eqn:E2. cbn.
+          destruct (solve_concls num rec sq th ps fs cs n1) as [rs' n2] eqn:E2. cbn.
           assert (Grb : good n rb).
           { destruct Hth as [W B]. split; [exact (unify_patterns_wf c0 sq th rb W Eu)|exact (unify_patterns_below n c0 sq th rb B Hc1 Hsq Eu)]. }
           destruct (solve_prems_inv rec Hinv _ _ _ _ _ (Forall_cons _ Grb (Forall_nil _)) Hps E1) as [L1 _].
           destruct (IH n1 c nu (good_mono _ _ _ L1 Hth) (atom_below_mono _ _ _ L1 Hsq) (Forall_below_mono _ _ _ L1 Hps)
-                       (Forall_below_mono _ _ _ L1 Hc2) Hin Hs He Hd) as (th' & nu' & Hth' & Hs' & Ha).
+                       (Forall_below_mono _ _ _ L1 Hc2)) as (th' & nu' & Hth' & Hs' & Ha); auto.
+          { intros f x Hf' Hx. eapply below_mono; [exact L1|]. now apply (Hfb f x). }
           rewrite E2 in Hth'. exists th', nu'. split; [apply in_or_app; now right|]. split; [assumption|].
           eapply agree_below_mono; eauto.
         + now apply (IH n c nu).
@@ -114,33 +158,49 @@ Section Complete.
 
     Lemma solve_rules_complete : forall sq th rs n r c nu mu,
         good n th -> atom_below n sq -> sat nu th ->
-        In r rs -> In c (concl r) -> eval_atom mu c = eval_atom nu sq ->
+        incl rs R -> In r rs -> In c (concl r) -> eval_atom mu c = eval_atom nu sq ->
         (forall p, In p (prem r) -> D h (eval_atom mu p)) ->
-        exists th' nu', In th' (fst (solve_rules rec sq th rs n)) /\ sat nu' th' /\ agree_below n nu nu'.
+        forallb (filter_holds num mu) (filters r) = true ->
+        exists th' nu', In th' (fst (solve_rules num rec sq th rs n)) /\ sat nu' th' /\ agree_below n nu nu'.
     Proof.
-      intros sq th rs. induction rs as [|r0 rs IH]; intros n r c nu mu Hth Hsq Hs Hin Hc He Hd; [contradiction|].
+      intros sq th rs. induction rs as [|r0 rs IH]; intros n r c nu mu Hth Hsq Hs Hincl Hin Hc He Hd Hf; [contradiction|].
       cbn. destruct (rename_rule_variables r0 n) as [rr n1] eqn:Er.
-      destruct (solve_concls rec sq th (prem rr) (concl rr) n1) as [res1 n2] eqn:E1.
-      destruct (solve_rules rec sq th rs n2) as [rest n3] eqn:E2. cbn.
+      destruct (solve_concls num rec sq th (prem rr) (filters rr) (concl rr) n1) as [res1 n2] eqn:E1.
+      destruct (solve_rules num rec sq th rs n2) as [rest n3] eqn:E2. cbn.
       destruct (renamed_below _ _ _ _ Er) as (L0 & Bp & Bc).
-      destruct (solve_concls_inv rec Hinv _ _ _ _ _ _ _ (good_mono _ _ _ L0 Hth) (atom_below_mono _ _ _ L0 Hsq) Bp Bc E1) as [L1 _].
+      destruct (solve_concls_inv num rec Hinv _ _ _ _ _ _ _ _ (good_mono _ _ _ L0 Hth) (atom_below_mono _ _ _ L0 Hsq) Bp Bc E1) as [L1 _].
       destruct Hin as [<-|Hin].
-      - destruct (rename_rule_spec _ _ _ _ Er) as (vm & Hok & _ & Epm & Ecl & Cp & Cc & _).
+      - destruct (rename_rule_spec _ _ _ _ Er) as (vm & Hok & _ & Epm & Ecl & Cp & Cc & Efl).
+        assert (Hr : In r0 R) by (apply Hincl; now left).
+        assert (Hcov : safe_rules R = true -> forall f x, In f (filters r0) -> In x (filter_vars f) -> lookup x vm <> None).
+        { intros Hsafe f x Hf' Hx. eapply covered_of_prem_var; [exact Cp|].
+          eapply safe_rule_filter_vars; eauto. eapply safe_rules_In; eauto. }
         set (nu1 := push vm mu nu).
         assert (A1 : agree_below n nu nu1) by (intros x Hx; unfold nu1; eapply push_below; eauto).
         assert (S1 : sat nu1 th) by (eapply sat_agree_below; eauto; apply Hth).
         rewrite Forall_forall in Cp, Cc.
-        destruct (solve_concls_complete sq th (prem rr) (concl rr) n1 (ren_atom vm c) nu1) as (th' & nu' & Hth' & Hs' & Ha); auto.
+        destruct (solve_concls_complete sq th (prem rr) (filters rr) (concl rr) n1 (ren_atom vm c) nu1) as (th' & nu' & Hth' & Hs' & Ha); auto.
         + now apply good_mono with n.
         + now apply atom_below_mono with n.
+        + rewrite Efl. intros f x Hf' Hx. apply in_map_iff in Hf'. destruct Hf' as (f0 & <- & Hf0).
+          rewrite filter_vars_rename in Hx. apply in_map_iff in Hx. destruct Hx as (x0 & <- & Hx0).
+          destruct Hmode as [Hk|Hsafe]; [rewrite (unfiltered_rule R r0 Hk Hr) in Hf0; contradiction|].
+          eapply rename_name_below; eauto.
+        + destruct Hmode as [Hk|Hsafe].
+          * left. now rewrite Efl, (unfiltered_rule R r0 Hk Hr).
+          * right. split; [assumption|]. intros th' Hd'. rewrite Efl. apply renamed_filters_det; [eapply safe_rules_In; eauto|].
+            now rewrite <- Epm.
         + rewrite Ecl. now apply in_map.
         + unfold nu1. rewrite (eval_atom_push n n1) by auto. rewrite He. symmetry. now apply (eval_atom_agree n).
         + intros p' Hp'. rewrite Epm in Hp'. apply in_map_iff in Hp'. destruct Hp' as (p & <- & Hp).
           unfold nu1. rewrite (eval_atom_push n n1) by auto. auto.
+        + rewrite Efl. destruct Hmode as [Hk|Hsafe]; [now rewrite (unfiltered_rule R r0 Hk Hr)|].
+          unfold nu1. rewrite (forallb_push num n n1 vm mu nu (filters r0) Hok (Hcov Hsafe)). exact Hf.
         + rewrite E1 in Hth'. exists th', nu'. split; [apply in_or_app; now left|]. split; [assumption|].
           eapply agree_below_trans; [exact A1|]. eapply agree_below_mono; eauto.
       - assert (L02 : (n <= n2)%N) by lia.
-        destruct (IH n2 r c nu mu (good_mono _ _ _ L02 Hth) (atom_below_mono _ _ _ L02 Hsq) Hs Hin Hc He Hd)
+        assert (Hincl' : incl rs R) by (intros x Hx; apply Hincl; now right).
+        destruct (IH n2 r c nu mu (good_mono _ _ _ L02 Hth) (atom_below_mono _ _ _ L02 Hsq) Hs Hincl' Hin Hc He Hd Hf)
           as (th' & nu' & Hth' & Hs' & Ha). rewrite E2 in Hth'.
         exists th', nu'. split; [apply in_or_app; now right|]. split; [assumption|].
         eapply agree_below_mono; eauto.
@@ -161,37 +221,39 @@ Section Complete.
 
   Lemma helper_body_complete_fact : forall rec q th n nu,
       sat nu th -> In (eval_atom nu q) F ->
-      exists th' nu', In th' (fst (helper_body F R rec q th n)) /\ sat nu' th' /\ agree_below n nu nu'.
+      exists th' nu', In th' (fst (helper_body num F R rec q th n)) /\ sat nu' th' /\ agree_below n nu nu'.
   Proof.
     intros rec q th n nu Hs Hin. unfold helper_body.
-    destruct (solve_rules rec (substitute th q) th R n) as [rr n1] eqn:E. cbn.
+    destruct (solve_rules num rec (substitute th q) th R n) as [rr n1] eqn:E. cbn.
     destruct (match_facts_complete (substitute th q) th F _ nu Hin Hs) as (th' & Hth' & Hs').
     { now apply eval_substitute. }
     exists th', nu. split; [apply in_or_app; now left|]. split; [assumption|apply agree_below_refl].
   Qed.
 
-  Lemma helper_complete : forall k, rec_complete k (helper F R (S k)).
+  Lemma helper_complete : forall k, rec_complete k (helper num F R (S k)).
   Proof.
     induction k as [|k IH]; intros q th n nu Hth Hq Hs Hd.
     - inversion Hd as [h f Hin|]; subst. cbn [helper]. now apply helper_body_complete_fact.
-    - change (helper F R (S (S k))) with (helper_body F R (helper F R (S k))).
+    - change (helper num F R (S (S k))) with (helper_body num F R (helper num F R (S k))).
       inversion Hd as [h f Hin|h r c mu Hr Hc Hp Hf Eh Ef]; subst.
       + now apply helper_body_complete_fact.
       + unfold helper_body.
-        destruct (solve_rules (helper F R (S k)) (substitute th q) th R n) as [rr n1] eqn:E. cbn.
+        destruct (solve_rules num (helper num F R (S k)) (substitute th q) th R n) as [rr n1] eqn:E. cbn.
         assert (Hsq : atom_below n (substitute th q)) by (apply substitute_below; [apply Hth|assumption]).
-        destruct (solve_rules_complete (helper F R (S k)) k (helper_inv F R (S k)) IH
-                                       (substitute th q) th R n r c nu mu Hth Hsq Hs Hr Hc) as (th' & nu' & Hth' & Hs' & Ha).
+        destruct (solve_rules_complete (helper num F R (S k)) k (helper_inv num F R (S k))
+                                       (fun Hs0 => helper_det num F R Hs0 (S k)) IH
+                                       (substitute th q) th R n r c nu mu Hth Hsq Hs (incl_refl R) Hr Hc) as (th' & nu' & Hth' & Hs' & Ha).
         { rewrite Ef. symmetry. now apply eval_substitute. }
         { exact Hp. }
+        { exact Hf. }
         rewrite E in Hth'. exists th', nu'. split; [apply in_or_app; now right|auto].
   Qed.
 
   (* every fact with a derivation of height <= MAX_DEPTH that is an instance of the goal is an instance of the
      goal under some returned binding map *)
-  Lemma complete_shallow : forall q nu,
+  Lemma complete_mode : forall q nu,
       D MAX_DEPTH (eval_atom nu q) ->
-      exists th, In th (backward_chaining F R q) /\
+      exists th, In th (backward_chaining num F R q) /\
                  exists nu', eval_atom nu' (apply_answer th q) = eval_atom nu q.
   Proof.
     intros q nu Hd. unfold backward_chaining.
@@ -201,3 +263,17 @@ Section Complete.
     rewrite eval_apply_answer by assumption. eapply eval_atom_agree; eauto. apply first_fresh_below.
   Qed.
 End Complete.
+
+(* safe rule sets, filters allowed *)
+Lemma complete_shallow : forall num F R q nu,
+    safe_rules R = true -> derivable num F R MAX_DEPTH (eval_atom nu q) ->
+    exists th, In th (backward_chaining num F R q) /\
+               exists nu', eval_atom nu' (apply_answer th q) = eval_atom nu q.
+Proof. intros num F R q nu Hs. apply complete_mode. now right. Qed.
+
+(* rule sets without filters, safe or not *)
+Lemma complete_shallow_unfiltered : forall num F R q nu,
+    known_C18 R = false -> derivable num F R MAX_DEPTH (eval_atom nu q) ->
+    exists th, In th (backward_chaining num F R q) /\
+               exists nu', eval_atom nu' (apply_answer th q) = eval_atom nu q.
+Proof. intros num F R q nu Hk. apply complete_mode. now left. Qed.
